@@ -103,10 +103,17 @@ def dRel : Sexp → Option Rel
   | list [i, n, k, p] => do some { id := ← dNat i, numb := ← dNat n, kind := ← dRelKind k, parent := ← dParent p }
   | _ => none
 
+def dLoose : Sexp → Option (Nat × Attr)
+  | list [c, a] => do some (← dNat c, ← dAttr a)
+  | _ => none
+
 def dDiagram : Sexp → Option ClassDiagram
   | list [cs, ts, ks, rs] => do
     some { containers := ← dList dContainer cs, dts := ← dList dDataType ts, classes := ← dList dClass ks,
            rels := ← dList dRel rs }
+  | list [cs, ts, ks, rs, ls] => do
+    some { containers := ← dList dContainer cs, dts := ← dList dDataType ts, classes := ← dList dClass ks,
+           rels := ← dList dRel rs, loose := ← dList dLoose ls }
   | _ => none
 
 /-- component name as passed to `build_component`: `none` or a string -/
